@@ -296,7 +296,36 @@ EPT_SP = ["a", "a__b", "sp__", "__", "https://sp.example/__x", "sp 1", "a_", "_b
 EPT_US = ["c", "b__c", "__c", "u 1", "_c", "c__", "alice", "b", "b__c__d", ""]
 
 
-def gen_eptid(rng, collide=None):
+def boundary_shifts(rng):
+    """Different (requester, user) pairs whose plain concatenation is the same string: the boundary between the two
+    parts is moved (entity id a prefix of the other, the user ids making up the difference), in both orders
+    (sp+user as in a cache key, user+sp as in the digest input), with and without "__" inside either part."""
+    out = []
+    for _ in range(rng.randint(1, 3)):
+        c = rng.randrange(4)
+        if c == 0:
+            sp, us = rng.choice(["https://sp.example.org/app", "https://sp1.example/sp", "urn:mace:example.com:sp:1"]), \
+                str(rng.randrange(10000, 99999))
+        elif c == 1:
+            sp, us = rstr(rng, 2, 4), rstr(rng, 2, 4)
+        elif c == 2:
+            sp, us = rstr(rng, 1, 2) + "__" + rstr(rng, 1, 2), rstr(rng, 2, 3)
+        else:
+            sp, us = rstr(rng, 2, 3), rstr(rng, 1, 2) + "__" + rstr(rng, 1, 2)
+        out.append([sp, us])
+        for _ in range(rng.randint(1, 2)):
+            k = rng.randint(1, max(1, min(3, len(us) - 1)))
+            if rng.random() < 0.6:
+                out.append([sp + us[:k], us[k:]])      # sp' + us' == sp + us, requester grew
+            else:
+                k2 = rng.randint(1, max(1, min(3, len(sp) - 1)))
+                out.append([sp[:-k2], sp[-k2:] + us])  # sp' + us' == sp + us, requester shrank
+            if rng.random() < 0.4:
+                out.append([sp[k:] if len(sp) > k else sp, us + sp[:k]])  # us' + sp' == us + sp (digest input order)
+    return [c for c in out if c[0] or c[1]]
+
+
+def gen_eptid(rng, collide=None, shift=None):
     secret = rng.choice(["secret", "s e c", "", "ß"])
     idp = rng.choice(["https://idp.example/idp", "idp", "i!d!p"])
     calls = []
@@ -308,6 +337,11 @@ def gen_eptid(rng, collide=None):
         mid = rstr(rng, 0, 2)
         calls.append([sp + "__" + mid, us])
         calls.append([sp, mid + "__" + us])
+    if shift is None:
+        shift = rng.random() < 0.3
+    if shift:
+        calls.extend(boundary_shifts(rng))
+        n = max(n, len(calls) + 2)
     while len(calls) < n:
         if calls and rng.random() < 0.3:
             calls.append(list(rng.choice(calls)))
@@ -336,6 +370,8 @@ def gen_cases(rng, tier):
         yield decode_text(rng)
     for _ in range(1500 if big else 200):
         yield gen_eptid(rng, collide=False)
+    for _ in range(600 if big else 100):
+        yield gen_eptid(rng, collide=False, shift=True)
     for _ in range(60 if big else 12):
         yield gen_eptid(rng, collide=True)
     for _ in range(20 if big else 4):
@@ -627,9 +663,16 @@ def compare(case, impl, model):
 
 def finding_key(case, impl, lean):
     if case["op"] == "eptid":
+        # known class, kept narrow: EVERY pair of calls on which the implementation's values break the spec is a pair of
+        # different (sp, user) with the same sp + "__" + user, and the values are exactly what the cache-by-joined-key
+        # model predicts.  Any other sharing of a cache slot (e.g. plain concatenation sp + user) is not this class.
         calls = [tuple(c) for c in case["calls"]]
-        collide = any(a != b and a[0] + "__" + a[1] == b[0] + "__" + b[1] for a in calls for b in calls)
-        if collide and impl == lean.get("model"):
+        vals = impl.get("vals", [])
+        if len(vals) != len(calls) or impl != lean.get("model"):
+            return None
+        bad = [(a, b) for i, a in enumerate(calls) for j, b in enumerate(calls)
+               if i < j and ((a == b) != (vals[i] == vals[j]))]
+        if bad and all(a != b and a[0] + "__" + a[1] == b[0] + "__" + b[1] for a, b in bad):
             return KNOWN_EPTID
         return None
     if case["op"] == "hist":
